@@ -196,6 +196,10 @@ def kernel_cases(ctx, count, values, exactq):
                         A.data[k] = rng.choice(pow2) * rng.choice([1, -1])
         x = vec(rng, n, values)
         b = vec(rng, n, values)
+        if not exactq and rng.random() < 0.25:
+            # the same system in other units (an exact power of two far below one): a "zero diagonal" is an exact zero
+            A.data *= 2.0 ** -60
+            b = b * 2.0 ** -60
         om = rng.choice(omegas)
         fwd = rng.random() < 0.5
         rng3 = (0, n, 1) if fwd else (n - 1, -1, -1)
@@ -316,7 +320,7 @@ def oracle_public(ctx, count):
     rng = ctx.sub('oracle')
     vals = [-2, -1, -0.5, 0.5, 1, 2, 0.75, -1.25]
     for it in range(count):
-        n = rng.choice([2, 3, 4, 6, 8])
+        n = rng.choice([2, 3, 4, 6, 8, 8, 14])
         dt = rng.choice([np.float64, np.float64, np.complex128, np.float32, np.complex64])
         tol = 1e-10 if dt in (np.float64, np.complex128) else 2e-4
         cplx = dt in (np.complex128, np.complex64)
@@ -355,6 +359,8 @@ def oracle_public(ctx, count):
             its = 2 + (it // 5) % 2          # zero guess AND several iterations (first-iteration shortcuts must not persist)
         om = rng.choice([1.0, 0.5, 1.5, 4.0 / 3.0])
         bs = rng.choice([d for d in (1, 2, 3) if n % d == 0])
+        if n in (8, 14) and it % 2 == 0:
+            bs = 8 if n == 8 else 7            # large blocks (the block-inverse routine switches method at 7)
         nb = n // bs
         fmt = rng.choice(['csr', 'bsr'])
         Afmt = A if fmt == 'csr' else sp.bsr_array(A, blocksize=(bs, bs))
@@ -435,6 +441,20 @@ def oracle_public(ctx, count):
               tests['schwarz'] = (lambda y: R.schwarz(sp.csr_array(A.copy()), y, b, iterations=its, sweep=sweep),
                                   rep(lambda y: _seq(y, [lambda v, o=o: ref_schwarz(D, v, b, o, subs)
                                                          for o in orders(sweep, n)]), its))
+              # the same matrix OBJECT with a second subdomain layout of the same sizes (cached parameters must not be reused)
+              subs2 = [sorted(set((j + 1) % n for j in sd)) for sd in subs]
+              if all(len(a_) == len(b_) for a_, b_ in zip(subs, subs2)) and subs2 != subs and \
+                      all(block_ok(D[np.ix_(sd, sd)]) for sd in subs2):
+                  sub_flat = np.array([j for sd in subs2 for j in sd], dtype=I32)
+                  sub_ptr = np.array([0] + list(np.cumsum([len(sd) for sd in subs2])), dtype=I32)
+
+                  def two_layouts(y):
+                      As_ = sp.csr_array(A.copy())
+                      R.schwarz(As_, y.copy(), b, iterations=1, sweep=sweep)              # fills the cache on As_
+                      R.schwarz(As_, y, b, iterations=its, sweep=sweep, subdomain=sub_flat, subdomain_ptr=sub_ptr)
+                  tests['schwarz/second-layout'] = (two_layouts,
+                                                    rep(lambda y: _seq(y, [lambda v, o=o: ref_schwarz(D, v, b, o, subs2)
+                                                                           for o in orders(sweep, n)]), its))
             coef = [rng.choice([0.1, -0.2, 0.05]) for _ in range(rng.randrange(1, 4))]
 
             def ref_poly(y):
